@@ -742,7 +742,9 @@ impl Context {
         ty: TypeNodeId,
         is_global: bool,
     ) {
-        let ty = InferContext::substitute_type(ty);
+        // Values of record type are stored with their fields sorted by name, whatever order a type
+        // annotation lists them in; destructure against that layout.
+        let ty = self.canonical_record_type_id(InferContext::substitute_type(ty));
         let TypedPattern { pat, .. } = pattern;
         let span = pattern.to_span();
         match (pat, ty.to_type()) {
